@@ -152,17 +152,18 @@ def decide(body, sym, names, spec, assume=None, norm=None):
         return False, "compares quantities outside the specification: %s" % unknown
     if not names:
         return False, "compares nothing"
-    k = len(set(names.values()))
     keys = sorted(names)
-    k = max(k, 2)
     bad = []
     n = 0
-    snames = sorted(set(names.values()))
+    # every quantity the specification talks about is varied — also one the function never looks at (a function
+    # that ignores a quantity it should compare must disagree with the specification somewhere)
+    snames = sorted(set(names.values()) | set(spec_names(spec)))
+    k = max(len(snames), 2)
+    if len(snames) > 6:
+        return False, "too many quantities"
     for vals in itertools.product(range(k), repeat=len(snames)):
         senv = dict(zip(snames, vals))
         env = {q: senv[names[q]] for q in keys}
-        for sn in spec_names(spec):
-            senv.setdefault(sn, 0)
         if assume and not assume(senv):
             continue
         n += 1
